@@ -1,0 +1,86 @@
+#pragma once
+
+/**
+ * Verification hooks (compiled only when ORATIO_VERIF is defined).
+ *
+ * A driver installs a tracer through smt::verif::current(); with no tracer installed every hook is a
+ * single null-pointer test. With ORATIO_VERIF undefined the macros expand to nothing.
+ */
+#ifdef ORATIO_VERIF
+#include "smt_export.h"
+#include "lit.h"
+#include "lin.h"
+#include "inf_rational.h"
+#include <vector>
+
+namespace smt
+{
+  class sat_core;
+  class var_value;
+
+  namespace verif
+  {
+    enum origin
+    {
+      o_theory_record = 0,   // theory::record (theory propagation lemmas; the solver's own no-goods): the default
+      o_analysis = 1,        // conflict analysis of a propositional conflict (sat_core::propagate)
+      o_next = 2,            // the no-good stored by sat_core::next
+      o_theory_conflict = 3  // conflict analysis of a theory conflict (theory::analyze_and_backjump)
+    };
+
+    class tracer
+    {
+    public:
+      virtual ~tracer() = default;
+      // sat_core
+      virtual void clause(const sat_core &, const std::vector<lit> &, bool) {}             // new_clause(lits as given) -> result
+      virtual void learnt(const sat_core &, const std::vector<lit> &, int) {}              // sat_core::record(lits), origin
+      virtual void def_bool(const sat_core &, const char *, const std::vector<lit> &, lit) {} // new_eq/new_conj/new_disj/new_at_most_one/new_exct_one(args) -> result
+      // lra_theory: relation op in {"lt","leq","geq","gt"} between two linear expressions -> result
+      virtual void def_lra(const void *, const char *, const lin &, const lin &, lit) {}
+      // idl/rdl_theory: 'to - from <= dist' -> result ; relation between two expressions -> result
+      virtual void def_dist(const void *, bool, var, var, const inf_rational &, lit) {}
+      virtual void def_dl(const void *, bool, const char *, const lin &, const lin &, lit) {}
+      // ov_theory
+      virtual void def_ov_var(const void *, var, const std::vector<var_value *> &, const std::vector<lit> &) {}
+      virtual void def_ov_eq(const void *, var, var, lit) {}
+      // thread events (PARALLELIZE)
+      virtual void thread_event(const char *, const void *, size_t) {}
+    };
+
+    SMT_EXPORT tracer *&current() noexcept;
+    SMT_EXPORT int &next_origin() noexcept;
+  } // namespace verif
+} // namespace smt
+
+#define ORATIO_VERIF_HOOK(call)                    \
+  do                                               \
+  {                                                \
+    if (auto *vt_ = smt::verif::current())         \
+      vt_->call;                                   \
+  } while (0)
+
+#define ORATIO_VERIF_ORIGIN(o) smt::verif::next_origin() = (o)
+
+/**
+ * Placed as the first statement of a function: when a tracer is installed, the function is re-entered once
+ * to compute its result ('self_call'), the result is reported ('log', which may use 'vr_') and returned.
+ */
+#define ORATIO_VERIF_WRAP(self_call, log)          \
+  {                                                \
+    static thread_local bool raw_ = false;         \
+    if (raw_)                                      \
+      raw_ = false;                                \
+    else if (auto *vt_ = smt::verif::current())    \
+    {                                              \
+      raw_ = true;                                 \
+      auto vr_ = self_call;                        \
+      vt_->log;                                    \
+      return vr_;                                  \
+    }                                              \
+  }
+#else
+#define ORATIO_VERIF_HOOK(call)
+#define ORATIO_VERIF_ORIGIN(o)
+#define ORATIO_VERIF_WRAP(self_call, log)
+#endif
